@@ -379,6 +379,18 @@ def run(ctx):
     p = profile()
     maxd = ctx.pick(4, 6)
     dl = list(DIALECTS)
+    # coverage prelude: every function once per dialect, one duration and one date literal
+    pre = [scalar.simple_filter_for(rng, p, f) for f in sorted(SQL_FUNCS)]
+    pre.append(("cmp", "gt", ("bin", "add", T.ident("d"), T.lit("duration", "P1DT2H")), T.ident("d")))
+    pre.append(("cmp", "eq", T.ident("dd"), T.lit("date", "2020-01-01")))
+    pre.append(("cmp", "lt", T.ident("d"), T.lit("datetime", "2020-01-01T00:00:00")))
+    pre.append(("un", "not", ("cmp", "in", ("bin", "mod", ("bin", "div", ("bin", "mul", T.ident("a"), T.I(2)), T.I(3)), T.I(5)),
+                              T.lst(T.I(1), T.I(2)))))
+    for j, t in enumerate(pre):
+        if ctx.mine(j):
+            for dialect in dl:
+                judge(ctx, uniquify(t), dialect, None, "coverage")
+                judge(ctx, uniquify(t), dialect, "tb", "coverage")
     for i in range(ctx.pick(1400, 30000)):
         if ctx.out_of_time():
             break
